@@ -122,6 +122,46 @@ def grid(net, mode, tier):
     return ens_list, avoids, srcs, limits, rets
 
 
+def specialize(net, j, v):
+    """the reference network with variable j fixed to v and removed (what restrict_petrinet_to_subspace encodes)"""
+    from ..refmodel import Net
+    rest = [i for i in range(net.n) if i != j]
+    tables = []
+    for i in rest:
+        m = 0
+        for r in range(1 << len(rest)):
+            s = (v << j)
+            for pos, k in enumerate(rest):
+                if (r >> pos) & 1:
+                    s |= 1 << k
+            if net.f(i, s):
+                m |= 1 << r
+        tables.append(m)
+    return Net([net.names[i] for i in rest], tables, inputs=[pos for pos, k in enumerate(rest) if k in net.inputs])
+
+
+def check_restricted(net, pn, res, spec, report):
+    """trappist on the Petri net restricted to x=v must solve the specialised network (a restriction can turn a variable into
+    an input; default source detection has to see that) - wave-5 change C09-w5-2"""
+    from biobalm.trappist_core import trappist
+    from biobalm.petri_net_translation import restrict_petrinet_to_subspace
+    if net.n < 2:
+        return
+    for j, nm in enumerate(net.names):
+        for v in (0, 1):
+            rp = restrict_petrinet_to_subspace(pn, {nm: v})
+            rn = specialize(net, j, v)
+            for rev in (False, True):
+                for problem in ("min", "max", "fix"):
+                    exp = expected(rn, problem, rev, {}, [], rn.sources)
+                    call = ["trappist", problem, rev, [], [], None, None, f"pn|{nm}={v}"]
+                    res["evals"] += 1
+                    got = trappist(rp, problem=problem, reverse_time=rev)
+                    err = compare(got, exp, None)
+                    if err:
+                        report(err, call, f"restricted to {nm}={v}: got {sorted(map(key, got))} expected {sorted(map(key, exp))}")
+
+
 def check_net(net, mode, tier, res, spec):
     from biobalm.trappist_core import trappist, compute_fixed_point_reduced_STG
     from biobalm.petri_net_translation import network_to_petrinet
@@ -159,6 +199,7 @@ def check_net(net, mode, tier, res, spec):
                                     report(err, call, f"got {sorted(map(key, got))} expected {sorted(map(key, exp))}")
             if nontriv:
                 res["nontrivial"].add((repr(spec), problem, rev))
+    check_restricted(net, pn, res, spec, report)
     for ret in rets:
         for ens in ens_list:
             for avoid in avoids:
@@ -208,6 +249,10 @@ def replay(case):
     bn = bn_of(net).infer_valid_graph()
     pn = network_to_petrinet(bn)
     kind, a, rev, ens, avoid, osv, lim, form = case["call"]
+    if isinstance(form, str) and form.startswith("pn|"):
+        out = []
+        check_restricted(net, pn, new_result(), case["net"], lambda err, call, detail: out.append(V(err, {"net": case["net"], "call": call}, detail)) if call == list(case["call"]) else None)
+        return out
     ens = dict(map(tuple, ens))
     avoid = [dict(map(tuple, x)) for x in avoid]
     if kind == "trappist":
